@@ -541,7 +541,7 @@ impl<'s> SliceReader<'s> {
 //@@ subst `read_primitive_bytes_or_else(self, read_described_bytes)` => `read_primitive_bytes_or_else(self, Ghost(0))` rule=R28
 //@@ spec
     requires bounded(*old(self)),
-    ensures byte_buf_forwarded(*old(self), *final(self), r),
+    ensures byte_buf_forwarded(*old(self), *final(self), r),     // [C10.reader.byte-buf-same-entry-point] [C20.scan.exact] (spelled out in byte_buf_forwarded above)
 //@@ end
 }
 impl IoReader {
@@ -554,7 +554,7 @@ impl IoReader {
 //@@ subst `read_primitive_bytes_or_else(self, read_described_bytes)` => `read_primitive_bytes_or_else(self, Ghost(0))` rule=R28
 //@@ spec
     requires bounded(*old(self)),
-    ensures byte_buf_forwarded(*old(self), *final(self), r),
+    ensures byte_buf_forwarded(*old(self), *final(self), r),     // [C10.reader.byte-buf-same-entry-point] [C20.scan.exact] (spelled out in byte_buf_forwarded above)
 //@@ end
 }
 
